@@ -134,10 +134,13 @@ impl World {
             mgr.spawn(&mut config);
             mgr
         };
-        World {
+        let mut w = World {
             rt: Some(rt), mgr, bmp_port: ports[0], http_port: ports[1], spare_ports: ports[2..].to_vec(),
             conns: BTreeMap::new(), accepted: 0, lost: 0, binds: 1, reloaded: false, rids: BTreeMap::new(), notes: vec![], stalled: None,
-        }
+        };
+        // the pipeline is up when the bmp-tcp-in unit has bound its listener (units start together, after their waitpoint)
+        w.wait_metrics("listener bound", |t| metric_sum(t, "bmp_tcp_in_listener_bound_count_total", &[("component", UNIT)]) == Some(1));
+        w
     }
 
     fn stop(mut self) {
@@ -256,7 +259,7 @@ impl World {
         if self.reloaded {
             // nothing says that a silent connection is being served; after a reload give the unit a moment to drop it
             let t0 = Instant::now();
-            while t0.elapsed() < Duration::from_millis(150) {
+            while t0.elapsed() < Duration::from_millis(40) {
                 let text = self.metrics();
                 if self.reap(&text) { break; }
                 std::thread::sleep(Duration::from_millis(3));
